@@ -50,7 +50,52 @@ def parameters_of(repo: Repo, ci: ClassInfo) -> Dict[str, FunctionInfo]:
     return out
 
 
+def _sub1(t, a, b):
+    if t == a:
+        return b
+    if isinstance(t, tuple):
+        return tuple(_sub1(x, a, b) for x in t)
+    return t
+
+
+def float_exact(t):
+    """Simplify with the identities that hold EXACTLY in IEEE arithmetic for every finite x:
+    x*0 = 0, x*1 = x, x+0 = x, x-0 = x, constant folding.  (x + (1 - x) is NOT among them:
+    for |x| >= 2**24 in float32 the sum absorbs the 1.)"""
+    if not isinstance(t, tuple):
+        return t
+    if t and t[0] == 'bin' and t[1] in ('+', '-', '*'):
+        a, b = float_exact(t[2]), float_exact(t[3])
+
+        def num(x):
+            return x[1] if x[0] == 'const' and isinstance(x[1], (int, float)) and \
+                not isinstance(x[1], bool) else None
+        na, nb = num(a), num(b)
+        if na is not None and nb is not None:
+            return ('const', {'+': na + nb, '-': na - nb, '*': na * nb}[t[1]])
+        if t[1] == '*':
+            if na == 0 or nb == 0:
+                return ('const', 0)
+            if na == 1:
+                return b
+            if nb == 1:
+                return a
+        if t[1] == '+':
+            if na == 0:
+                return b
+            if nb == 0:
+                return a
+        if t[1] == '-' and nb == 0:
+            return a
+        return ('bin', t[1], a, b)
+    return tuple(float_exact(x) for x in t)
+
+
 class MaskerInfo:
+    exact_at_one = None
+    exact_at_zero = None
+    abs_term = None
+
     def __init__(self):
         self.cls: Optional[ClassInfo] = None
         self.theta_fn: Optional[FunctionInfo] = None
@@ -126,6 +171,11 @@ def analyse_masker(repo: Repo, ci: ClassInfo) -> MaskerInfo:
             mi.blend_ok = True
             mi.param = inner[2]
             mi.ka_name = K[2]
+            # floating-point exactness at the two values the keep-alive constant takes
+            b = _ops(blend)
+            mi.exact_at_one = float_exact(_sub1(b, K, ('const', 1)))
+            mi.exact_at_zero = float_exact(_sub1(b, K, ('const', 0)))
+            mi.abs_term = A
         else:
             mi.blend_msg = f'theta blend is {show(blend)}'
     else:
